@@ -835,7 +835,7 @@ mod async_io {
             buf: FileVolatileBuf,
             offset: u64,
         ) -> (Result<usize>, FileVolatileBuf) {
-            self.async_read_at_volatile(buf, offset).await
+            (**self).async_read_at_volatile(buf, offset).await
         }
 
         async fn async_read_vectored_at_volatile(
@@ -843,7 +843,7 @@ mod async_io {
             bufs: Vec<FileVolatileBuf>,
             offset: u64,
         ) -> (Result<usize>, Vec<FileVolatileBuf>) {
-            self.async_read_vectored_at_volatile(bufs, offset).await
+            (**self).async_read_vectored_at_volatile(bufs, offset).await
         }
 
         async fn async_write_at_volatile(
@@ -851,7 +851,7 @@ mod async_io {
             buf: FileVolatileBuf,
             offset: u64,
         ) -> (Result<usize>, FileVolatileBuf) {
-            self.async_write_at_volatile(buf, offset).await
+            (**self).async_write_at_volatile(buf, offset).await
         }
 
         async fn async_write_vectored_at_volatile(
@@ -859,7 +859,7 @@ mod async_io {
             bufs: Vec<FileVolatileBuf>,
             offset: u64,
         ) -> (Result<usize>, Vec<FileVolatileBuf>) {
-            self.async_write_vectored_at_volatile(bufs, offset).await
+            (**self).async_write_vectored_at_volatile(bufs, offset).await
         }
     }
 
